@@ -27,7 +27,7 @@ CLAIMED = {
                   "stores and a tracing resolver; random extractions trace-validated (Trace_Errors C02 clauses, Trace_Uri)",
         text="The specification defines the designated schema (RFC 3986 resolution against the base in effect, then the JSON "
              "Pointer fragment) and Inline, the schema with every reference written out. TLC checks on every final state of "
-             "the Extract machine (every subschema position x hostile definition names x 14 base-URI/store arrangements "
+             "the Extract machine (every subschema position x hostile definition names x 20 base-URI/store arrangements "
              "incl. nested ids, chains, array elements, store documents, a cross-document reference evaluated before a "
              "local one) that the located errors of the schema with references equal those of its inlining and of the "
              "original, and exports them; each scenario is replayed on a real validator (own store, one validator for all "
